@@ -140,3 +140,22 @@ C[PP + 'parse'] = dict(
                      'implies(len(yields) > 0 and self.position < self.length, yields[len(yields) - 1][1] is not None)')]},
     decreases={0: 'self.length - self.position'},
 )
+
+# ---------------------------------------------------------------- the module-level parse(): exception safety of the whole entry point (C09)
+PM = 'peptacular.proforma.proforma_parser:'
+RECORDS['Multi'] = dict(annotations='List[ParsedChain]', connections='List[Optional[bool]]')
+RECORDS['Plain'] = dict(_sequence='str')
+CTORS['MultiProFormaAnnotation'] = 'Multi'
+CTORS['ProFormaAnnotation'] = 'Plain'
+CTORS['_ProFormaParser'] = 'contract:' + PP + '__init__'
+C[PM + '_is_unmodified'] = dict(params=dict(proforma_sequence='str'), returns='bool', pure=True, trusted=True,
+                                bounded_by='all(c in AMINO_ACIDS for c in text): a membership scan, cannot raise; bounded/C09.py', ensures=[])
+C[PP + '__init__'] = dict(
+    params=dict(proforma_sequence='str'), returns='Parser', external=True, trusted=True,
+    bounded_by='constructor: stores the text, its length and position 0, empties the accumulators (14 assignments); every bounded C01 / C09 case',
+    ensures=[('fresh-cursor', 'result.sequence == proforma_sequence and result.position == 0 and result.length == len(proforma_sequence)')])
+C[PM + 'parse'] = dict(
+    params=dict(sequence='str'), returns='Any', raises={'ValueError': None},
+    # C09: "parsing either returns an annotation or raises a ValueError": every path of the entry point returns or raises a ValueError-family
+    # error (implicit obligations: no IndexError from annotations[0] / [:-1], no TypeError, no other exception)
+    ensures=[('returns', 'True')])
